@@ -217,6 +217,11 @@ LockFreeAtRest == (\A t \in Task : pc[t] # "ingetter") => \A p \in Ph : lockOf[p
 \* a lock is only held by the task running that placeholder's getter
 LockHolder == \A p \in Ph : lockOf[p] # 0 => (pc[lockOf[p]] = "ingetter" /\ tph[lockOf[p]] = p)
 
+\* progress: while somebody waits for a lock, runs a getter or leaves a lock, the system can take a step
+\* without any user action (no deadlock; a waiter's lock is held only by somebody who is making progress)
+Pending(t) == pc[t] \in {"lockwait", "ingetter", "exiting", "exitfollow", "exitabort"}
+NoStuck == (\E t \in Task : Pending(t)) => \E t \in Task : ENABLED (Grant(t) \/ Tick(t) \/ ExitStep(t))
+
 EmitEdge == EdgeFile = "" \/
   CSVWrite("%1$s", <<ToJson([f |-> [slot |-> slot, pc |-> pc, got |-> got, runs |-> runs, lk |-> lockOf, nph |-> nph, left |-> left, tph |-> tph, obj |-> obj, rem |-> rem, dels |-> dels, phInst |-> phInst, myrun |-> myrun, cap |-> cap],
                              a |-> last',
